@@ -147,7 +147,15 @@ def judge_eval(ctx, case, r, m):
         out['verdict'] = 'viol'; out['why'] = pr[1]; return out
     if prop == 'C12':
         if r.get('entrypoints_agree') is False: out['verdict'] = 'viol'; out['why'] = 'entry points disagree'
+        elif r.get('parsed_once_agrees') is False: out['verdict'] = 'viol'; out['why'] = 'a query parsed once (parse_json_path + js_path_process) gives another result than the string entry point'
         return out
+    # what `query` / `query_only_path` return is part of what each property observes (the judged list below is query_with_path's)
+    if prop in ('C01', 'C11') and r.get('ep_same_nodes') is False:
+        out['verdict'] = 'viol'; out['why'] = 'query() does not return the nodes query_with_path returns'; return out
+    if prop == 'C03' and r.get('ep_same_paths') is False:
+        out['verdict'] = 'viol'; out['why'] = 'query_only_path does not report the paths query_with_path reports'; return out
+    if prop == 'C02' and r.get('entrypoints_agree') is False and r.get('ep_same_nodes') and r.get('ep_same_paths'):
+        out['verdict'] = 'viol'; out['why'] = 'the entry points return the same nodes in different orders'; return out
     rfc = m.get('rfc')
     if prop == 'C08':
         # the only source of Err is an invalid query string: whatever the model parser accepts must evaluate to Ok
@@ -163,6 +171,11 @@ def judge_eval(ctx, case, r, m):
         why = 'a path returned by a query, fed back to reference(), does not yield the node it was reported for'
     else:
         differs = pr != proj_eval(prop, m['spec']); why = 'real != spec'
+        if prop == 'C11' and not differs and status_of(r) == 'ok':
+            # the index written into a reported path is part of the arithmetic: for nodes reached through indices only it must be the node's position
+            for e in r['ok']:
+                if isinstance(e.get('l'), list) and all('i' in st for st in e['l']) and ''.join(map(chr, e['p'])) != npath_py(e['l']):
+                    differs = True; why = 'the index in the reported path is not the position of the selected element'; break
     if differs:
         in_class = [k for k in ctx.my_kf if k['class'] in KF_FLAG and KF_FLAG[k['class']](flags, case)]
         if in_class and not out['corr']:
@@ -288,10 +301,21 @@ def parse_suite(ctx, name, lines, res):
     real = run_sharded(HBIN, 'parse', lines)
     model = run_sharded(MBIN, 'parse', lines)
     assert len(real) == len(model) == len(lines), (name, len(real), len(model), len(lines))
+    # C06/C07 are observed at the string entry points too: on seven documents (scalars, empty and non-empty containers) query, query_with_path,
+    # query_only_path, js_path, js_path_vals and js_path_path must accept exactly what parse_json_path accepts
+    eps = run_sharded(HBIN, 'parseep', lines) if ctx.prop in ('C06', 'C07') else [None] * len(lines)
     info = collections.Counter()
-    for s, rl, ml in zip(lines, real, model):
+    for s, rl, ml, el in zip(lines, real, model, eps):
         r = json.loads(rl); m = json.loads(ml)
         res.stats['cases'] += 1; info['cases'] += 1
+        if el is not None:
+            e = json.loads(el)
+            if e.get('ep') is False or (status_of(e) in ('ok', 'err') and status_of(r) in ('ok', 'err') and status_of(e) != status_of(r)):
+                rel = (ctx.prop == 'C07' and m.get('rfc') == 'invalid') or (ctx.prop == 'C06' and m.get('rfc') == 'valid')
+                if rel:
+                    res.violations.append({'suite': name, 'mode': 'parse', 'case': s, 'real': {'parse_json_path': status_of(r), 'entry_points': e}, 'model': m,
+                                           'why': 'a string entry point (query / query_with_path / query_only_path / js_path*) does not classify the string as parse_json_path does'}); info['violations'] += 1
+                    continue
         if 'skipped' in m or 'rfc' not in m: res.stats['skip:model_not_run'] += 1; continue
         res.stats['rfc_' + m['rfc']] += 1
         res.stats['real_' + status_of(r)] += 1
@@ -499,21 +523,59 @@ def hist_suite(ctx, name, lines, res):
 
 
 # ------------------------------------------------------------------------------------------------ generic (C15)
-def generic_suite(ctx, name, lines, res):
+def sort_members(v):
+    """a tagged value with the members of every object sorted by name (values are compared as JSON values: member order is not part of a value)"""
+    if isinstance(v, dict):
+        if 'o' in v: return {'o': sorted(([k, sort_members(x)] for k, x in v['o']), key=lambda kv: kv[0])}
+        if 'a' in v: return {'a': [sort_members(x) for x in v['a']]}
+    return v
+
+
+def proj_paths_values(r):
+    if status_of(r) != 'ok': return ('status', status_of(r))
+    return ('ok', [key([''.join(map(chr, e['p'])), norm(sort_members(e['v']))]) for e in r['ok']])
+
+
+def tag_rev(v):
+    if isinstance(v, list): return {"a": [tag_rev(x) for x in v]}
+    if isinstance(v, dict): return {"o": [[[ord(ch) for ch in k], tag_rev(x)] for k, x in sorted(v.items(), key=lambda kv: kv[0].encode('utf-8'), reverse=True)]}
+    return tag(v)
+
+
+def generic_suite(ctx, name, lines, res, only_rev=False):
     if not lines: return
     hl = [harness_line(l) for l in lines]
     rv = run_sharded(HBIN, 'eval', hl)
-    rg1 = run_sharded(HBIN, 'generic', hl)       # second Queryable type, structural PartialEq, Default = {}
-    rg2 = run_sharded(HBIN, 'generic2', hl)      # third Queryable type, PartialEq by JSON value, Default = "default"
+    rg1 = rv if only_rev else run_sharded(HBIN, 'generic', hl)       # second Queryable type, structural PartialEq, Default = {}
+    rg2 = rv if only_rev else run_sharded(HBIN, 'generic2', hl)      # third Queryable type, PartialEq by JSON value, Default = "default"
     model = run_sharded(MBIN, 'eval', lines)
     assert len(rv) == len(rg1) == len(rg2) == len(model) == len(lines)
+    # member order is part of the view: the same type holding every object's members in REVERSE name order must give what the model gives on the
+    # reordered document (serde_json's map is sorted, so `Value` itself can never show a dependence on some other order)
+    rev_idx = [i for i, l in enumerate(lines) if '{' in l.split('"tdoc"')[0].split('"doc"', 1)[-1]]
+    rev_lines = []
+    for i in rev_idx:
+        c = json.loads(lines[i]); c['rev'] = True; c['tdoc'] = tag_rev(c['doc']); rev_lines.append(json.dumps(c, ensure_ascii=False))
+    rrev = dict(zip(rev_idx, run_sharded(HBIN, 'generic', [harness_line(l) for l in rev_lines])))
+    mrev = dict(zip(rev_idx, run_sharded(MBIN, 'eval', rev_lines)))
     info = collections.Counter()
-    for ln, a, b1, b2, ml in zip(lines, rv, rg1, rg2, model):
+    for idx, (ln, a, b1, b2, ml) in enumerate(zip(lines, rv, rg1, rg2, model)):
         c = json.loads(ln); a = json.loads(a); b1 = json.loads(b1); b2 = json.loads(b2); m = json.loads(ml)
         res.stats['cases'] += 1; info['cases'] += 1
+        if idx in rrev:
+            br = json.loads(rrev[idx]); mr = json.loads(mrev[idx])
+            if 'impl' in mr and 'skipped' not in br and 'badjson' not in br and not (mr.get('flags') or {}).get('regex_unsupported') and not (mr.get('flags') or {}).get('float_overflow'):
+                res.stats['reordered_member_runs'] += 1
+                if status_of(br) == 'ok' and br.get('ok'): res.nontrivial.add(chash([c['q'], c['doc'], 'rev']))
+                if status_of(br) in ('panic', 'abort', 'timeout') or proj_paths_values(br) != proj_paths_values(mr['impl']):
+                    res.violations.append({'suite': name, 'mode': 'generic', 'case': {**{k: v for k, v in c.items() if k != 'tdoc'}, 'rev': True}, 'real': {'generic_run_reversed_members': br}, 'model': mr,
+                                           'why': 'a faithful Queryable implementation that keeps object members in another order does not get the results of that order'}); info['violations'] += 1
+                    continue
+        if only_rev: continue
         if 'skipped' in a or 'skipped' in b1 or 'skipped' in b2 or 'skipped' in m or 'badjson' in a: res.stats['skip:not_run'] += 1; continue
         pa = proj_eval('C15', a)
         if (m.get('flags') or {}).get('regex_unsupported'): res.stats['skip:regex_unsupported'] += 1; continue
+        if (m.get('flags') or {}).get('float_overflow'): res.stats['skip:number_literal_outside_exact_f64_domain'] += 1; continue
         if 'impl' not in m: res.stats['skip:model_gave_no_answer'] += 1; continue
         pm = proj_eval('C15', m['impl'])
         if pa[0] == 'ok' and pa[1]: res.nontrivial.add(chash([c['q'], c['doc']]))
@@ -644,6 +706,7 @@ def run(ctx, round_no=0):
         eval_suite(ctx, 'witnesses+corpus', pre, res) if pre else None
         if first: eval_suite(ctx, 'small-scope', g('gen_small.py', p, seed, 6000 * S), res)
         eval_suite(ctx, 'random', g('gen_eval.py', seed, 12000 * S), res)
+        if p == 'C02': generic_suite(ctx, 'member-order', g('gen_eval.py', seed + 77, 3000 * S), res, only_rev=True)
         if p == 'C03': eval_suite(ctx, 'paths-of-all-nodes', g('gen_paths.py', seed, 3000 * S), res)
         if p == 'C01': eval_suite(ctx, 'targeted-filters', g('gen_targeted.py', 'c10', seed, 1500 * S) + g('gen_targeted.py', 'c05', seed, 1500 * S) + g('gen_targeted.py', 'c14', seed, 1000 * S)
                                   + g('gen_targeted.py', 'c04', seed, 1500 * S) + g('gen_targeted.py', 'c15', seed, 500 * S), res)
